@@ -72,16 +72,17 @@ Theorem C10_slots_are_consumed_only_by_the_processor :
 Proof. exact consumed_only_by_processor. Qed.
 Print Assumptions C10_slots_are_consumed_only_by_the_processor.
 
-(* THE BARRIER.  A thread calls wait() in any reachable state st0 — any history, schedule, flavour,
-   buffer size — and its marker is queued.  Follow any continuation of the run (btrace), counting
+(* THE BARRIER.  A thread inside wait(), past its is_closed check (KWaitStart: whatever happened
+   between the check and now, a close() included), queues its marker in any reachable state st0 —
+   any history, schedule, flavour, buffer size.  Follow any continuation of the run (btrace), counting
    down the slots that were in the buffer at that moment as the processor consumes them.  Whenever
    the marker has been released, i.e. wait() can return Ok, the count is zero: every item queued
    before the marker — in particular every insert and remove the same thread issued before calling
    wait() — has been taken by the processor, or discarded by a drain for clear() / close(). *)
 Theorem C10_wait_is_a_barrier :
   forall c mc t now st0 a st1 id st n,
-  reach c (cinit c mc t now) st0 ->
-  cstep c st0 (LOp a OWait) = StepOk st1 (mk_out PtWaitAfterSend [] RNone) -> client_of st1 a = KWaitAfterSend id ->
+  reach c (cinit c mc t now) st0 -> client_of st0 a = KWaitStart ->
+  cstep c st0 (LClient a) = StepOk st1 (mk_out PtWaitAfterSend [] RNone) -> client_of st1 a = KWaitAfterSend id ->
   btrace c st1 (length (s_buf st0)) st n ->
   mem_N id (s_done st) = true -> n = 0%nat.
 Proof. exact wait_is_a_barrier. Qed.
@@ -105,9 +106,9 @@ Example C10_barrier_nonvacuous :
       let c := {| c_ignore_internal := true; c_item_size := 56; c_buf_cap := 4; c_buffer_items := 0; c_metrics := true;
                   c_validator := fun _ _ => true; c_coster := fun _ => 0%Z; c_async := false |} in
       let item := {| h_arm := Some ArmItem; h_oracle := []; h_tick_key := None |} in
-      match crun c (cinit c 100 t 1000) [LOp 0 (OInsert 1 0 100 1 0 false); LClient 0] with
+      match crun c (cinit c 100 t 1000) [LOp 0 (OInsert 1 0 100 1 0 false); LClient 0; LOp 0 OWait] with
       | Some (st0, _) =>
-          match cstep c st0 (LOp 0 OWait) with
+          match cstep c st0 (LClient 0) with
           | StepOk st1 o =>
               (length (s_buf st0), o, client_of st1 0,
                match brun c st1 1 [LClient 0] with Some (s, n) => Some (mem_N 0 (s_done s), n) | None => None end,
